@@ -15,6 +15,7 @@
 #include <atomic>
 #include <cstddef>
 #include <cstdint>
+#include <thread>
 #include <type_traits>
 #include <utility>
 
@@ -168,6 +169,9 @@ namespace pika {
             std::atomic<std::uint64_t> state_;
             stop_callback_base* callbacks_ = nullptr;
             pika::threads::detail::thread_id_type signalling_thread_;
+            // request_stop() may be called from a thread that is not a pika thread, in which
+            // case signalling_thread_ is invalid and cannot identify the signalling thread
+            std::thread::id signalling_os_thread_;
         };
 
     }    // namespace detail
